@@ -95,11 +95,11 @@ func (c *Cond) Broadcast() {
 // checkCopy 检查是否被拷贝使用
 func (c *Cond) checkCopy() {
 	// 判断checker保存的指针是否等于当前的指针（初始化时，并没有初始化checker的值，所以也会出现不相等）
-	if c.checker != unsafe.Pointer(c) &&
+	if atomic.LoadPointer(&c.checker) != unsafe.Pointer(c) &&
 		// 由于初次初始化时，c.checker为0值，所以顺便进行一次原子替换，辅助初始化
 		!atomic.CompareAndSwapPointer(&c.checker, nil, unsafe.Pointer(c)) &&
 		// 再度检查checker保留指针是否等于当前指针
-		c.checker != unsafe.Pointer(c) {
+		atomic.LoadPointer(&c.checker) != unsafe.Pointer(c) {
 		panic("syncx.Cond is copied")
 	}
 }
